@@ -211,3 +211,92 @@ func firstPageRef(d *Doc) string {
 	}
 	return "null"
 }
+
+// CryptoDoc builds documents that carry strings and streams in every kind of place
+// (for the encryption round-trip and plaintext-leak checks). marker is embedded in every string.
+func CryptoDoc(kind, marker string, container string) []byte {
+	d := Simple([]PageSpec{{Marker: 1, Contents: []string{fmt.Sprintf("BT /F1 12 Tf 72 720 Td (%s-content) Tj ET\nq 1 0 0 1 1 0 cm Q\n", marker)}}, {Marker: 2}}, SimpleOpts{Title: marker + "-title", InfoExtra: fmt.Sprintf("/Subject<%x>/Custom(%s-\\(custom\\)\\\\)", marker+"-hexsubject", marker)})
+	switch kind {
+	case "nested":
+		// strings in nested arrays and dictionaries, empty strings (in a private key of an annotation dictionary)
+		pg := firstPageRef(d)
+		an := d.Add(fmt.Sprintf("<</Type/Annot/Subtype/Text/Rect[10 10 50 50]/Contents(%s-n)/P %s/VerifPrivate<</A[(%s-arr1)[(%s-arr2)<</K(%s-dict3)/E()>>]]/B<</C<</D(%s-deep)>>>>>>>>", marker, pg, marker, marker, marker, marker))
+		for _, nr := range sortedKeys(d.objs) {
+			if Ref(nr) == pg {
+				o := d.objs[nr]
+				o.body = strings.TrimSuffix(o.body, ">>") + fmt.Sprintf("/Annots[%s]>>", Ref(an))
+			}
+		}
+	case "annotation":
+		pg := firstPageRef(d)
+		an := d.Add(fmt.Sprintf("<</Type/Annot/Subtype/Text/Rect[10 10 50 50]/Contents(%s-annot)/T<%x>/P %s>>", marker, marker+"-author", pg))
+		for _, nr := range sortedKeys(d.objs) {
+			if Ref(nr) == pg {
+				o := d.objs[nr]
+				o.body = strings.TrimSuffix(o.body, ">>") + fmt.Sprintf("/Annots[%s]>>", Ref(an))
+			}
+		}
+	case "attachment":
+		ef := d.AddStream("<</Type/EmbeddedFile>>", []byte(marker+"-attachment-bytes"))
+		fs := d.Add(fmt.Sprintf("<</Type/Filespec/F(%s-file.txt)/UF(%s-file.txt)/Desc(%s-desc)/EF<</F %s>>>>", marker, marker, marker, Ref(ef)))
+		nt := d.Add(fmt.Sprintf("<</Names[(%s-key) %s]>>", marker, Ref(fs)))
+		d.PatchCatalog(fmt.Sprintf("/Names<</EmbeddedFiles %s>>", Ref(nt)))
+	case "outline":
+		ol := d.Reserve()
+		it := d.Add(fmt.Sprintf("<</Title(%s-bookmark)/Parent %s/Dest[%s /Fit]>>", marker, Ref(ol), firstPageRef(d)))
+		d.Set(ol, fmt.Sprintf("<</Type/Outlines/First %s/Last %s/Count 1>>", Ref(it), Ref(it)))
+		d.PatchCatalog(fmt.Sprintf("/Outlines %s", Ref(ol)))
+	case "xmp":
+		md := d.AddStream("<</Type/Metadata/Subtype/XML>>", []byte(fmt.Sprintf("<?xpacket begin='' id='W5M0MpCehiHzreSzNTczkc9d'?><x:xmpmeta xmlns:x='adobe:ns:meta/'><rdf:RDF xmlns:rdf='http://www.w3.org/1999/02/22-rdf-syntax-ns#'><rdf:Description rdf:about='' xmlns:dc='http://purl.org/dc/elements/1.1/'><dc:title>%s-xmp</dc:title></rdf:Description></rdf:RDF></x:xmpmeta><?xpacket end='w'?>", marker)))
+		d.PatchCatalog(fmt.Sprintf("/Metadata %s", Ref(md)))
+	case "filters":
+		for _, nr := range sortedKeys(d.objs) {
+			o := d.objs[nr]
+			if o.isStrm && strings.Contains(string(o.stream), "-content") {
+				o.stream = deflate(o.stream)
+				o.body = "<</Filter/FlateDecode>>"
+			}
+		}
+	case "sigdict":
+		pg := firstPageRef(d)
+		sig := d.Add(fmt.Sprintf("<</Type/Sig/Filter/Adobe.PPKLite/SubFilter/adbe.pkcs7.detached/Name(%s-signer)/Reason(%s-reason)/Location(%s-location)/M(D:20240101000000Z)/Contents<%s>/ByteRange[0 10 20 10]>>", marker, marker, marker, strings.Repeat("00", 32)))
+		fld := d.Add(fmt.Sprintf("<</FT/Sig/T(sig1)/V %s/Type/Annot/Subtype/Widget/Rect[0 0 0 0]/F 132/P %s>>", Ref(sig), pg))
+		d.PatchCatalog(fmt.Sprintf("/AcroForm<</Fields[%s]/SigFlags 3>>", Ref(fld)))
+		for _, nr := range sortedKeys(d.objs) {
+			if Ref(nr) == pg {
+				o := d.objs[nr]
+				o.body = strings.TrimSuffix(o.body, ">>") + fmt.Sprintf("/Annots[%s]>>", Ref(fld))
+			}
+		}
+	case "blockaligned":
+		// strings and a stream whose plaintext is a multiple of 16 bytes and ends in padding-like bytes
+		tail := "\x03\x03\x03"
+		s16 := (marker + "-pad-0123456789abcdef")[:13] + tail
+		pgb := firstPageRef(d)
+		anb := d.Add(fmt.Sprintf("<</Type/Annot/Subtype/Text/Rect[10 10 50 50]/Contents<%x>/T<%x>/P %s>>", s16, strings.Repeat("\x10", 16), pgb))
+		for _, nr := range sortedKeys(d.objs) {
+			if Ref(nr) == pgb {
+				o := d.objs[nr]
+				o.body = strings.TrimSuffix(o.body, ">>") + fmt.Sprintf("/Annots[%s]>>", Ref(anb))
+			}
+		}
+		img := append([]byte(marker+"-img-")[:12], 0x04, 0x04, 0x04, 0x04)
+		x := d.AddStream("<</Type/XObject/Subtype/Image/Width 4/Height 4/ColorSpace/DeviceGray/BitsPerComponent 8>>", img)
+		for _, nr := range sortedKeys(d.objs) {
+			o := d.objs[nr]
+			if strings.Contains(o.body, "/Type/Page/") {
+				o.body = strings.Replace(o.body, "/Resources<<", fmt.Sprintf("/Resources<</XObject<</Im1 %s>>", Ref(x)), 1)
+			}
+		}
+	}
+	switch container {
+	case "xrefstream":
+		return d.BytesXRefStream(false)
+	case "objstream":
+		return d.BytesXRefStream(true)
+	}
+	return d.Bytes()
+}
+
+// CryptoKinds lists the location kinds of CryptoDoc.
+var CryptoKinds = []string{"plain", "nested", "annotation", "attachment", "outline", "xmp", "filters", "blockaligned", "sigdict"}
